@@ -39,6 +39,12 @@ type HDeep struct {
 	HBase
 	HZ int
 }
+
+// a struct with an unexported field: only its exported part can be used from another package
+type HPriv struct {
+	HA int
+	hb int
+}
 '''
 
 
@@ -149,6 +155,8 @@ HELPER_STRUCTS = [
      "fields": [fdecl(["HX"], T_basic("int")), fdecl(["HY"], T_basic("string"))]},
     {"pkg": "helper", "name": "HDeep", "tparams": [], "doc": "", "comment": [],
      "fields": [fdecl([], T_named("helper", "HBase")), fdecl(["HZ"], T_basic("int"))]},
+    {"pkg": "helper", "name": "HPriv", "tparams": [], "doc": "", "comment": [],
+     "fields": [fdecl(["HA"], T_basic("int")), fdecl(["hb"], T_basic("int"))]},
 ]
 
 
@@ -589,4 +597,46 @@ def gen_struct_pkg(rng, name, nstructs=None, p_embed=0.6, p_shadow=0.45, p_new=0
         pkg["structs"].append(sd)
     if uses_number:
         pkg["extra_decls"].append("type Number interface {\n\t~int | ~int64\n}\n")
+    return pkg
+
+
+def embedded_struct_names(pkg):
+    """names of the package's own structs that some struct of the package embeds"""
+    res = set()
+    for sd in pkg["structs"]:
+        for fd in sd["fields"]:
+            if not fd["names"]:
+                sub = struct_of(pkg, fd["ty"])
+                if sub is not None and sub["pkg"] == "":
+                    res.add(sub["name"])
+    return res
+
+
+_SHOOT_LINE = re.compile(r"^(//\s*shoot:\s*)(.*)$", re.I)
+
+
+def strip_defs_of_embedded(pkg):
+    """remove the def= directives (and new:"-" tags of embedded fields) from the structs that are embedded by
+    another struct of the package: a default in the declaration of an embedded struct is invisible to the embedding
+    type (open finding), so most generated packages keep defaults on non-embedded structs"""
+    emb = embedded_struct_names(pkg)
+    for sd in pkg["structs"]:
+        if sd["name"] not in emb:
+            continue
+        for fd in sd["fields"]:
+            lines = []
+            for line in fd["comment"]:
+                m = _SHOOT_LINE.match(line)
+                if not m:
+                    lines.append(line)
+                    continue
+                parts = [p for p in m.group(2).split(";") if not re.match(r"^\s*def(ault)?=", p, re.I)]
+                if any(p.strip() for p in parts):
+                    lines.append(m.group(1) + ";".join(parts))
+            fd["comment"] = lines
+            fd["doc"] = doc_text(lines)
+    for sd in pkg["structs"]:
+        for fd in sd["fields"]:
+            if not fd["names"] and fd["tag"] is not None and 'new:"-"' in fd["tag"]:
+                fd["tag"] = None
     return pkg
